@@ -108,7 +108,7 @@ def step(cls, k=3, all_followups=False, **sel):
         for kind in fam.kinds_for(cname, which):
             ops = fam.ops_of_kind(cname, kind, k)
             if not all_followups:
-                ops = ops[:: max(1, len(ops) // 3)]
+                ops = ops[:: max(1, len(ops) // 2)][:2]
             for op in ops:
                 if kind == "relabel_inplace":
                     cur = [mapping.get(a, a) for a in present]
@@ -177,7 +177,7 @@ def plan(tier, seed):
             if cname == "CRG":
                 pre += ["role in (0, 1, 3)"]
             if cname == "SCRG":
-                pre += ["ds in (0, 8)", "cs in (0, 5, 7)", "role == 0 or (ds == 0 and cs == 0)", "p0 and p1"]
+                pre += ["ds in (0, 8)", "cs in (0, 7)", "role == 0 or (ds == 0 and cs == 0)", "p0 and p1", "m2 in (0, 2)"]
         if k == 4:
             pre += ["el == 0", "m3 in (0, 1, 4, 6)", "m2 in (0, 1, 2, 5)"]
         units.append(Sel(name="relabel_" + u.name[4:], func=f"vp.props.C11:{f}", params=params, pre=pre, shard_by=u.shard_by,
@@ -190,6 +190,6 @@ MANIFEST = {
             "(swaps, zero, negative and large ids); relabel_atoms is executed on the real classes in place and into a copy and compared with the "
             "renamed reference model, with the inverse mapping, with a freshly built renamed graph (==, hash), and every public op kind is then run "
             "on the relabelled graph against the model.",
-    "note": "Trusted: CrossHair path exhaustion, z3, reference model. Follow-up operations: one third of the argument tuples per op kind in quick, all in thorough (k=3).",
+    "note": "Trusted: CrossHair path exhaustion, z3, reference model. Follow-up operations: two argument tuples per op kind in quick, all in thorough (k=3).",
     "technique": "CrossHair symbolic execution with z3 (solver-generated injective mappings and bounded graphs, real code per path) against a reference model",
 }
